@@ -5,6 +5,7 @@ import (
 	"math"
 	"sort"
 	"strings"
+	"sync/atomic"
 
 	"github.com/unixpickle/model3d/model2d"
 	"github.com/unixpickle/model3d/model3d"
@@ -28,7 +29,10 @@ func (l *latticeSolid) Max() model3d.Coord3D {
 func (l *latticeSolid) Contains(c model3d.Coord3D) bool {
 	x, y, z := int(math.Round(c.X)), int(math.Round(c.Y)), int(math.Round(c.Z))
 	if float64(x) != c.X || float64(y) != c.Y || float64(z) != c.Z {
-		panic("latticeSolid queried off-lattice")
+		// not a panic: the meshers query from worker goroutines, where a panic would kill the harness instead of
+		// becoming a failing case.  The flag is appended to the case's output (offQuery).
+		offLatticeQuery.Store(true)
+		return false
 	}
 	if x < 0 || y < 0 || z < 0 || x >= l.nx || y >= l.ny || z >= l.nz {
 		return false
@@ -46,12 +50,25 @@ func (l *latticeSolid2) Max() model2d.Coord { return model2d.XY(float64(l.nx-1),
 func (l *latticeSolid2) Contains(c model2d.Coord) bool {
 	x, y := int(math.Round(c.X)), int(math.Round(c.Y))
 	if float64(x) != c.X || float64(y) != c.Y {
-		panic("latticeSolid2 queried off-lattice")
+		offLatticeQuery.Store(true)
+		return false
 	}
 	if x < 0 || y < 0 || x >= l.nx || y >= l.ny {
 		return false
 	}
 	return l.bits[x+l.nx*y]
+}
+
+// offLatticeQuery is set when a lattice-defined solid is asked about a point it is not defined at (a lattice solid off
+// the lattice, an oracle solid off the lattice lines): the mesher placed a probe where the algorithm has no business.
+var offLatticeQuery atomic.Bool
+
+// offQuery returns (and clears) the flag as a suffix of a case's output; the model never prints it.
+func offQuery() string {
+	if offLatticeQuery.Swap(false) {
+		return " queried-off-lattice"
+	}
+	return ""
 }
 
 func bitStr(bs []bool) string {
@@ -160,7 +177,7 @@ func mcOut(m *model3d.Mesh) string {
 		ts = append(ts, strings.Join(vs[:], ","))
 	})
 	sort.Strings(ts)
-	return fmt.Sprintf("balanced=1 fans=1 outward=1 n=%d %s", len(ts), strings.Join(ts, ";"))
+	return fmt.Sprintf("balanced=1 fans=1 outward=1 n=%d %s", len(ts), strings.Join(ts, ";")) + offQuery()
 }
 
 func msOut(m *model2d.Mesh) string {
@@ -169,7 +186,7 @@ func msOut(m *model2d.Mesh) string {
 		ts = append(ts, fmt.Sprintf("%d.%d,%d.%d", d2(s[0].X), d2(s[0].Y), d2(s[1].X), d2(s[1].Y)))
 	})
 	sort.Strings(ts)
-	return fmt.Sprintf("inout=1 outward=1 n=%d %s", len(ts), strings.Join(ts, ";"))
+	return fmt.Sprintf("inout=1 outward=1 n=%d %s", len(ts), strings.Join(ts, ";")) + offQuery()
 }
 
 func run(c *hlib.Ctx) {
@@ -303,25 +320,32 @@ func soup3(c *hlib.Ctx, name string, build func() *model3d.Mesh, tag ...string) 
 	c.EmitSite(op, res, "corr:c01 soup3/"+name)
 }
 
-func soup2(c *hlib.Ctx, name string, build func() *model2d.Mesh) {
+// soup2 sends a real 2-D mesh with exact float coordinates to the proved decider and judges its orientation by the
+// sign of the exact shoelace sum (the contained side is on the right of every segment: clockwise, sum negative) - op
+// kind `soup2o` (the coordinate-free `soup2` is still understood by the driver).
+func soup2(c *hlib.Ctx, name string, build func() *model2d.Mesh, tag ...string) {
 	var op string
 	res := hlib.Guard(func() string {
 		m := build()
 		ids := map[model2d.Coord]int{}
-		var segs []string
+		var coords, segs []string
 		m.Iterate(func(s *model2d.Segment) {
 			for _, p := range s {
 				if _, ok := ids[p]; !ok {
 					ids[p] = len(ids)
+					coords = append(coords, hlib.Hex(p.X), hlib.Hex(p.Y))
 				}
 				segs = append(segs, fmt.Sprint(ids[p]))
 			}
 		})
-		op = fmt.Sprintf("c01 soup2 %d %s", len(segs)/2, strings.Join(segs, " "))
-		return "inout=1"
+		op = fmt.Sprintf("c01 soup2o %d %s %d %s", len(ids), strings.Join(coords, " "), len(segs)/2, strings.Join(segs, " "))
+		if len(tag) > 0 {
+			op += " " + strings.Join(tag, " ")
+		}
+		return "inout=1 outward=1"
 	})
 	if op == "" {
-		op = "c01 soup2 0"
+		op = "c01 soup2o 0 0"
 	}
 	c.Stat("c01.soup2."+name, 1)
 	c.EmitSite(op, res, "corr:c01 soup2/"+name)
@@ -351,8 +375,12 @@ func runGenerators(c *hlib.Ctx) {
 	// depends on the individual value of `stops` and on nothing else - so every value from 3 up to a bound is
 	// meshed (the radius function varies from value to value), and a few larger ones are drawn at random.
 	polarAll, polarMax := 104, 420
-	if c.N > 1000 {
-		polarAll = 180
+	// thorough tier: the sweep goes on to 180, each run taking every fourth value (phase = seed mod 4; the eight
+	// seeds of a thorough check, seed + 7919*i, cover every phase twice) - a complete sweep per run made the
+	// scratch files of one thorough check 6 GB
+	polarExt := 0
+	if c.N > 400 {
+		polarExt = 180
 	}
 	polarRadius := func() func(g model3d.GeoCoord) float64 {
 		a, b := rf(0, 0.4), rf(1, 5)
@@ -367,7 +395,16 @@ func runGenerators(c *hlib.Ctx) {
 		soup3(c, "polar", func() *model3d.Mesh { return model3d.NewMeshPolar(polarRadius(), stops) },
 			fmt.Sprintf("fn=NewMeshPolar stops=%d", stops))
 	}
-	for i := 0; i < reps/2+1; i++ {
+	for stops := polarAll + 1; stops <= polarExt; stops++ {
+		if int64(stops)%4 != ((c.Seed%4)+4)%4 {
+			continue
+		}
+		stops := stops
+		c.Stat("c01.polar.stops_swept_thorough", 1)
+		soup3(c, "polar", func() *model3d.Mesh { return model3d.NewMeshPolar(polarRadius(), stops) },
+			fmt.Sprintf("fn=NewMeshPolar stops=%d", stops))
+	}
+	for i := 0; i < minInt(reps/2+1, 4); i++ { // up to 350 000 triangles = 8 MB of op line each
 		stops := polarAll + 1 + c.Rng.Intn(polarMax-polarAll)
 		c.Stat("c01.polar.stops_random_large", 1)
 		soup3(c, "polar", func() *model3d.Mesh { return model3d.NewMeshPolar(polarRadius(), stops) },
